@@ -71,7 +71,7 @@ func refSketch(n, k int, seqs []core.S) []uint64 {
 
 func runC17(r *core.Run) {
 	firstCallClause(r, "mash.")
-	defer racePass(r, "race-C17", "Sequences and Distance on shared input sequences")
+	racePass(r, "race-C17", "Sequences and Distance on shared input sequences")
 
 	ks := []int{1, 2, 3}
 	ns := []int{1, 2, 3, 5, 8}
@@ -633,6 +633,65 @@ func runC17(r *core.Run) {
 				return core.Failf("FromJaccard(1,%d) = %v, want 0", c.K, mash.FromJaccard(1, c.K))
 			}
 			return core.Outcome{Class: "ok", Nontrivial: true, Evals: c.M + 1}
+		})
+	// "all Jaccard values in [0,1]": the grid above only has j >= 1/64. Every binary magnitude down to the
+	// smallest subnormal, with its neighbours, against every k up to where the formula stops clamping.
+	type jacMag struct {
+		Exp int `json:"j_is_about_2_to_minus"`
+		K   int `json:"k"`
+	}
+	jacKs := []int{}
+	for k := 1; k <= 64; k++ {
+		jacKs = append(jacKs, k)
+	}
+	jacKs = append(jacKs, 100, 745, 1000, 1<<20, math.MaxInt32)
+	core.Clause(r, "fromjaccard-magnitudes", core.Opts{Rule: "j = m * 2^-e for every e in 0..1074 (down to the smallest subnormal) and m in {1, 1.5}, each with its two neighbouring float64 values, and 10^-e for e in 0..323, x k in 1..64 and {100, 745, 1000, 2^20, MaxInt32}: FromJaccard within [0,1], equal (<=1e-12) to min(1,-ln(2j/(1+j))/k) (1 only where the formula says so: j = 0 is the only special value), non-increasing as j grows; non-trivial = all",
+		Bounds: "1075 binary exponents x 2 mantissas x 3 neighbours + 324 decimal exponents, 69 values of k"},
+		func(emit func(jacMag) bool) {
+			for e := 0; e <= 1074; e++ {
+				for _, k := range jacKs {
+					if !emit(jacMag{e, k}) {
+						return
+					}
+				}
+			}
+		},
+		func(c jacMag) core.Outcome {
+			js := []float64{}
+			for _, m := range []float64{1, 1.5} {
+				j := math.Ldexp(m, -c.Exp)
+				if j > 1 {
+					continue
+				}
+				js = append(js, math.Nextafter(j, 0), j)
+				if up := math.Nextafter(j, 2); up <= 1 {
+					js = append(js, up)
+				}
+			}
+			if c.Exp <= 323 {
+				js = append(js, math.Pow(10, -float64(c.Exp)))
+			}
+			slices.Sort(js)
+			prev := math.Inf(1)
+			for _, j := range js {
+				var d float64
+				if p := catch(func() { d = mash.FromJaccard(j, c.K) }); p != "" {
+					return core.Failf("FromJaccard(%v,%d) panicked: %s", j, c.K, p)
+				}
+				want := ref.MashFromJaccard(j, c.K)
+				if !(d >= 0 && d <= 1) || math.Abs(d-want) > 1e-12 {
+					return core.Failf("FromJaccard(%v,%d) = %v, want %v", j, c.K, d, want)
+				}
+				if d > prev {
+					return core.Failf("FromJaccard(.,%d) is not non-increasing at j = %v: %v after %v", c.K, j, d, prev)
+				}
+				prev = d
+			}
+			cl := "clamped to 1"
+			if prev < 1 {
+				cl = "below 1"
+			}
+			return core.Outcome{Class: cl, Nontrivial: true, Evals: len(js)}
 		})
 	_ = strings.ToUpper
 }
